@@ -284,6 +284,28 @@ MUTANTS += [
         "        let program = bytecode::compile(&if false { ast } else { AST::top(vec![AST::null()]) })\n            .expect(\"Compiler error\");\n\n        evaluate_with_memory_config(&program, self.heap_size, self.heap_log.clone())\n            .expect(\"Interpreter error\")\n    }\n\n    pub fn selected_input(&self) -> Result<NamedSource> {\n        NamedSource::from(self.input.as_ref())\n    }\n}\n\nimpl BytecodeInterpreterAction")]),
 ]
 
+# rules added in rounds 2-3
+MUTANTS += [
+    dict(id="M8f", props=["C08"], what="compile action drops its sink without flushing", edits=[
+        (M, "        sink.flush()\n            .expect(\"Cannot write program to output.\");\n", "")]),
+    dict(id="M8g", props=["C08"], what="write_utf8: one write, then write_all from the wrong offset", edits=[
+        (S, "    writer.write_all(bytes)?;\n    Ok(())\n        //.expect(&format!(\"Problem writing UTF-8",
+            "    let n = writer.write(bytes)?;\n    writer.write_all(&bytes[n.min(1)..])?;\n    Ok(())\n        //.expect(&format!(\"Problem writing UTF-8")]),
+    dict(id="M8h", props=["C08"], what="compile action flushes but drops the Result", edits=[
+        (M, "        sink.flush()\n            .expect(\"Cannot write program to output.\");\n", "        let _ = sink.flush();\n")]),
+    dict(id="M6f", props=["C06"], what="JSON text is trimmed and re-spaced after serialisation", edits=[
+        (M, "            ASTSerializer::JSON  => serde_json::to_string(&ast)?,", "            ASTSerializer::JSON  => serde_json::to_string(&ast)?.replace(\", \", \",\"),")]),
+    dict(id="M6g", props=["C06"], what="deserialize trims the source first", edits=[
+        (M, "            ASTSerializer::JSON  => Ok(serde_json::from_str(source)?),", "            ASTSerializer::JSON  => Ok(serde_json::from_str(&source.replace(\"\\r\", \"\"))?),")]),
+    dict(id="M3f", props=["C03", "C04", "C17"], what="loader pushes a constant only if it differs from the previous one", edits=[
+        (P, "        let constants: Vec<ProgramObject> =\n            (0..size).map(|_| ProgramObject::from_bytes(input, code)).collect();\n\n        ConstantPool(constants)",
+            "        let mut constants: Vec<ProgramObject> = Vec::new();\n        for _ in 0..size {\n            let constant = ProgramObject::from_bytes(input, code);\n            if constants.last() != Some(&constant) { constants.push(constant); }\n        }\n\n        ConstantPool(constants)")]),
+    dict(id="M10f", props=["C10", "C09"], what="discarded method calls on literal receivers are compiled away", edits=[
+        (C, "            AST::CallMethod { object, name: Identifier(name), arguments } => {", "            AST::CallMethod { object, .. } if !keep_result && matches!(**object, AST::Integer(_)) => {}\n            AST::CallMethod { object, name: Identifier(name), arguments } => {")]),
+    dict(id="M11f", props=["C11"], what="release profile aborts on panic", edits=[
+        ("Cargo.toml", "[dependencies]", "[profile.release]\npanic = \"abort\"\n\n[dependencies]")]),
+]
+
 MUTANTS = [m for m in MUTANTS if m["edits"]]
 
 BENIGN = [
@@ -329,7 +351,8 @@ BENIGN += [
         (H, "        self.size += object.size();\n", "        let bytes = object.size();\n        self.size += bytes;\n")]),
     dict(id="B17", props=["C04", "C08", "C06"], what="rename the sink local of the compile action", edits=[
         (M, "        let mut sink = self.selected_output()\n            .expect(\"Cannot open an output for the compiler.\");", "        let mut out = self.selected_output()\n            .expect(\"Cannot open an output for the compiler.\");"),
-        (M, "        output_serializer.serialize(&program, &mut sink)", "        output_serializer.serialize(&program, &mut out)")]),
+        (M, "        output_serializer.serialize(&program, &mut sink)", "        output_serializer.serialize(&program, &mut out)"),
+        (M, "        sink.flush()\n            .expect(\"Cannot write program to output.\");", "        out.flush()\n            .expect(\"Cannot write program to output.\");")]),
     dict(id="B18", props=["C01", "C10"], what="rename locals in RunAction::run", edits=[
         (M, "        let ast: AST = TopLevelParser::new()\n            .parse(&source.into_string()\n            .expect(\"Error reading input\"))\n            .expect(\"Parse error\");\n\n        let program = bytecode::compile(&ast)\n            .expect(\"Compiler error\");\n\n        evaluate_with_memory_config(&program, self.heap_size, self.heap_log.clone())\n            .expect(\"Interpreter error\")\n    }",
             "        let tree: AST = TopLevelParser::new()\n            .parse(&source.into_string()\n            .expect(\"Error reading input\"))\n            .expect(\"Parse error\");\n\n        let prog = bytecode::compile(&tree)\n            .expect(\"Compiler error\");\n\n        evaluate_with_memory_config(&prog, self.heap_size, self.heap_log.clone())\n            .expect(\"Interpreter error\")\n    }")]),
